@@ -21,7 +21,7 @@ import vlib, e2e, sync_e2e, scripted
 from props.c08 import gen as gen_c08, KINDS
 
 THEOREMS = ['C07_exit0_all_applied', 'C07_no_error_dropped', 'C07_failure_is_reported', 'C07_summary_is_census', 'C07_only_planned_changes', 'C07_only_planned_changes_unconditional',
-            'C07_async_ok_sound', 'C07_async_no_error_lost', 'C07_async_prefix', 'C07_async_ok_agrees_with_sync']
+            'C07_async_ok_sound', 'C07_async_no_error_lost', 'C07_async_prefix', 'C07_async_ok_agrees_with_sync', 'C07_async_covered_by_sync']
 
 
 def hidden(sc, p):
